@@ -473,7 +473,7 @@ class IRGenerator:
                             item.lineno, item.path)
                     env = self._get_or_create_env(namespace.name)
                     imported_env = self._get_or_create_env(item.target)
-                    if (namespace.name in imported_env or
+                    if (isinstance(imported_env.get(namespace.name), Environment) or
                             self._imports_namespace(imported_env, namespace.name)):
                         # Block circular imports, direct or through other
                         # namespaces. The Python backend can't easily
